@@ -254,6 +254,63 @@ Proof.
     + rewrite map_app. exact Hkd.
 Qed.
 
+(* ---- _parse_tuple_args (fixed length) ---- *)
+Lemma tuple_items_produced o depth vals : throwing o ->
+  forall args i acc s s' rs,
+  tuple_items tr o depth vals i args acc s = (s', Ok rs) ->
+  grows s s' /\
+  (e_errors s' = e_errors s ->
+     exists new, rs = acc ++ new /\ Forall2 (produced o depth) args new /\
+                 (List.length args = 0 \/ i + List.length args <= List.length vals)%nat).
+Proof.
+  intros (Hpi & _ & _). induction args as [|arg rest IH]; intros i acc s s' rs H; cbn [tuple_items] in H.
+  - injection H as <- <-. split; [apply grows_refl|]. intros _. exists []. rewrite app_nil_r.
+    split; [reflexivity|]. split; [constructor|left; reflexivity].
+  - destruct (List.length vals <=? i)%nat eqn:Elen.
+    + apply mbind_ok in H. destruct H as (s1 & [] & Hh & H).
+      destruct (IH _ _ _ _ _ H) as [G _].
+      split; [eapply grows_trans; [eapply handle_error_grows; exact Hh|exact G]|].
+      intros Heq. exfalso. eapply grew_contra; eassumption.
+    + apply Nat.leb_gt in Elen. unfold route_idx in H.
+      destruct (depth_check o (new_depth depth true)); try discriminate H;
+      (destruct (nth_error vals i) as [item|]; [|discriminate H];
+       destruct (enter_tr tr o depth true arg item) as [e|[r|e| | |]] eqn:E; try discriminate H;
+       [ destruct (IH _ _ _ _ _ H) as [G Hn]; split; [exact G|];
+         intros Heq; destruct (Hn Heq) as (new & -> & HF & Hlen);
+         exists (r :: new); rewrite <- app_assoc; split; [reflexivity|];
+         split; [constructor; [exists item; exact E|exact HF]|];
+         right; cbn [List.length]; destruct Hlen as [Hl|Hl]; [rewrite Hl|]; lia
+       | rewrite Hpi in H; apply mbind_ok in H; destruct H as (s1 & [] & Hh & H);
+         destruct (IH _ _ _ _ _ H) as [G _];
+         split; [eapply grows_trans; [eapply handle_error_grows; exact Hh|exact G]|];
+         intros Heq; exfalso; eapply grew_contra; eassumption ]).
+Qed.
+
+Lemma refixed_depth_ok o depth a r x :
+  refixed o depth a r -> depth_check o (new_depth depth true) <> Raise x.
+Proof. unfold refixed, enter_tr. intros H E. rewrite E in H. discriminate H. Qed.
+
+Lemma tuple_items_refixed o depth : forall args rs, Forall2 (refixed o depth) args rs ->
+  forall pre post acc s,
+  tuple_items tr o depth (pre ++ rs ++ post) (List.length pre) args acc s = (s, Ok (acc ++ rs)).
+Proof.
+  induction 1 as [|a r args rs Hr HF IH]; intros pre post acc s; cbn [tuple_items].
+  - rewrite app_nil_r. reflexivity.
+  - assert (Hlen : (List.length (pre ++ (r :: rs) ++ post) <=? List.length pre)%nat = false).
+    { apply Nat.leb_gt. rewrite !app_length. cbn [List.length]. lia. }
+    rewrite Hlen. unfold route_idx.
+    assert (Hnth : nth_error (pre ++ (r :: rs) ++ post) (List.length pre) = Some r).
+    { rewrite nth_error_app2 by lia. rewrite Nat.sub_diag. reflexivity. }
+    rewrite Hnth. pose proof Hr as Hr'. unfold refixed in Hr'. rewrite Hr'.
+    assert (Hgo : tuple_items tr o depth (pre ++ (r :: rs) ++ post) (S (List.length pre)) args (acc ++ [r]) s
+                  = (s, Ok (acc ++ r :: rs))).
+    { replace (pre ++ (r :: rs) ++ post) with ((pre ++ [r]) ++ rs ++ post) by (rewrite <- !app_assoc; reflexivity).
+      replace (S (List.length pre)) with (List.length (pre ++ [r])) by (rewrite app_length; cbn [List.length]; lia).
+      rewrite IH, <- app_assoc. reflexivity. }
+    destruct (depth_check o (new_depth depth true)) eqn:Ed; try exact Hgo.
+    exfalso. eapply refixed_depth_ok; eassumption.
+Qed.
+
 (* ---- the validator loop: checking constraints that all accepted accept again, in any state ---- *)
 Lemma run_validators_again o vals v : checking_vals vals = true -> constraints_hold re vals v ->
   forall s2, run_validators re o vals v s2 = (s2, Ok v).
@@ -305,6 +362,171 @@ Proof.
   unfold mcatch. destruct (tr o depth ot v s) as [s0 [a|e| | |]]; intros H; try discriminate H; try exact H.
 Qed.
 
+(* what Rule.parse did when it returned, for checking constraints and no `contains` *)
+Lemma rule_parse_inv o depth origin args ell vals mn mx v s s' w :
+  checking_vals vals = true ->
+  rule_parse re tr o depth origin args ell vals None mn mx v s = (s', Ok w) ->
+  exists s1 v1,
+    match origin with Some ot => tr o depth ot v s = (s1, Ok v1) | None => s1 = s /\ v1 = v end /\
+    ((exists ot, origin = Some ot /\ v1 = PNone /\ w = PNone) \/
+     exists sa,
+      (match args_parser_of origin args ell with
+       | APNone => ret v1
+       | APSeq => match args with
+                  | arg :: _ => do r <- parse_seq_args tr o depth arg v1;
+                                lift (rebuild_origin (match origin with Some ot => base_prim 8 ot | None => None end) r)
+                  | [] => ret v1 end
+       | APTuple => parse_tuple_args tr o depth args v1
+       | APMap => parse_map_args tr o depth args v1
+       end) s1 = (sa, Ok w) /\ e_errors sa = [] /\
+      (o_ignore_constraints o = false -> constraints_hold re vals w)).
+Proof.
+  intros Hck H. unfold rule_parse in H.
+  apply mbind_ok in H. destruct H as (s1 & v1 & Hor & H). exists s1, v1.
+  split.
+  { destruct origin as [ot|]; [eapply origin_ok; exact Hor|]. injection Hor as <- <-. split; reflexivity. }
+  assert (Hcase : (exists ot, origin = Some ot /\ v1 = PNone /\ w = PNone) \/
+    exists sa v2,
+      (match args_parser_of origin args ell with
+       | APNone => ret v1
+       | APSeq => match args with
+                  | arg :: _ => do r <- parse_seq_args tr o depth arg v1;
+                                lift (rebuild_origin (match origin with Some ot => base_prim 8 ot | None => None end) r)
+                  | [] => ret v1 end
+       | APTuple => parse_tuple_args tr o depth args v1
+       | APMap => parse_map_args tr o depth args v1
+       end) s1 = (sa, Ok v2) /\
+      (do v3 <- (if o_ignore_constraints o then ret v2
+                 else do w0 <- run_validators re o vals v2; ret w0);
+       do _ <- raise_error; ret v3) sa = (s', Ok w)).
+  { destruct origin as [ot|]; [destruct v1|]; try (right; apply mbind_ok in H; destruct H as (sa & v2 & H1 & H2); eauto).
+    left. injection H as _ <-. eauto. }
+  destruct Hcase as [Hn|(sa & v2 & Hap & Ht)]; [left; exact Hn|right].
+  apply mbind_ok in Ht. destruct Ht as (sb & v3 & Hv & Ht).
+  apply mbind_ok in Ht. destruct Ht as (sc & [] & Hr & Ht). injection Ht as <- <-.
+  apply raise_error_ok in Hr. destruct Hr as (-> & He & _).
+  assert (Hval : v3 = v2 /\ grows sa sb /\
+                 (o_ignore_constraints o = false -> e_errors sb = e_errors sa -> constraints_hold re vals v2)).
+  { destruct (o_ignore_constraints o).
+    - injection Hv as <- <-. split; [reflexivity|]. split; [apply grows_refl|]. intros; discriminate.
+    - apply mbind_ok in Hv. destruct Hv as (sd & w0 & Hrv & Hc). injection Hc as <- <-.
+      destruct (run_validators_checking re o vals Hck _ _ _ _ Hrv) as (-> & G1 & Hh).
+      split; [reflexivity|]. split; [exact G1|]. intros _. exact Hh. }
+  destruct Hval as (-> & G1 & Hh). pose proof (grows_nil _ _ G1 He) as Hsa.
+  exists sa. split; [exact Hap|]. split; [exact Hsa|]. intros Hi. apply Hh; [exact Hi|congruence].
+Qed.
+
+(* ... and the tail of a second run on a value the constraints accepted *)
+Lemma rule_tail_again o vals x s2 : checking_vals vals = true -> clean s2 ->
+  (o_ignore_constraints o = false -> constraints_hold re vals x) ->
+  (do v3 <- (if o_ignore_constraints o then ret x
+             else do w0 <- run_validators re o vals x; ret w0);
+   do _ <- raise_error; ret v3) s2 = (s2, Ok x).
+Proof.
+  intros Hck Hcl Hx. destruct (o_ignore_constraints o).
+  - unfold mbind, ret. rewrite (raise_error_clean s2 Hcl). reflexivity.
+  - unfold mbind at 1. unfold mbind at 1. rewrite (run_validators_again o vals x Hck (Hx eq_refl)).
+    unfold ret at 1. unfold mbind, ret. rewrite (raise_error_clean s2 Hcl). reflexivity.
+Qed.
+
+Lemma tuple_origin_inv origin ell : tuple_origin origin ell = true -> origin = Some (TPrim TTuple) /\ ell = false.
+Proof.
+  unfold tuple_origin. destruct origin as [[|p| | |]|]; try discriminate. destruct p; try discriminate.
+  destruct ell; try discriminate. auto.
+Qed.
+
+(* typed / ints_exact of a fixed-length tuple, as relations *)
+Fixpoint typed_list (ts : list ty) (ys : list pyval) : bool :=
+  match ts, ys with
+  | [], _ => true
+  | a :: ts', y :: ys' => typed a y && typed_list ts' ys'
+  | _ :: _, [] => false
+  end.
+
+Fixpoint ints_list (ts : list ty) (ys : list pyval) : bool :=
+  match ts, ys with
+  | [], _ => true
+  | a :: ts', y :: ys' => ints_exact a y && ints_list ts' ys'
+  | _ :: _, [] => true
+  end.
+
+(* Tuple[T1, ..., Tn] *)
+Lemma rule_tuple_fixed o depth args vals mn mx v s s' w :
+  throwing o -> checking_vals vals = true -> args <> [] -> forallb stable args = true ->
+  rule_parse re tr o depth (Some (TPrim TTuple)) args false vals None mn mx v s = (s', Ok w) ->
+  (match w with PTuple xs => typed_list args xs | _ => false end) = true ->
+  forall s2, clean s2 -> rule_parse re tr o depth (Some (TPrim TTuple)) args false vals None mn mx w s2 = (s2, Ok w).
+Proof.
+  intros Ho Hck Hne Hst H Hty s2 Hcl.
+  destruct (rule_parse_inv _ _ _ _ _ _ _ _ _ _ _ _ Hck H) as (s1 & v1 & Hor & Hcase).
+  destruct Hcase as [(ot & _ & _ & ->)|(sa & Hap & He & Hch)]; [discriminate Hty|].
+  assert (Eap : args_parser_of (Some (TPrim TTuple)) args false = APTuple).
+  { destruct args; [contradiction|reflexivity]. }
+  rewrite Eap in Hap. unfold parse_tuple_args in Hap.
+  destruct v1 as [| | | | | | | |vals0| | | | | | |]; try discriminate Hap.
+  apply mbind_ok in Hap. destruct Hap as (sx & [] & Hex & Hap).
+  apply mbind_ok in Hap. destruct Hap as (sr & res & Hit & Hap). injection Hap as <- <-.
+  destruct (tuple_items_produced o depth vals0 Ho _ _ _ _ _ _ Hit) as [G1 Hn].
+  (* the excess check of the first run recorded nothing *)
+  assert (Gx : grows s1 sx /\ (e_errors sx = e_errors s1 ->
+               ((List.length args <? List.length vals0)%nat &&
+                ((match o_addition o with Some false => true | _ => false end) || o_no_data_loss o)) = false)).
+  { destruct ((List.length args <? List.length vals0)%nat &&
+              ((match o_addition o with Some false => true | _ => false end) || o_no_data_loss o)) eqn:Ec.
+    - apply andb_prop in Ec. destruct Ec as [Elt _]. apply Nat.ltb_lt in Elt.
+      destruct (skipn (List.length args) vals0) as [|x0 xr] eqn:Esk.
+      { exfalso. pose proof (skipn_length (List.length args) vals0) as Hl. rewrite Esk in Hl. cbn [List.length] in Hl. lia. }
+      cbn [tuple_exceed] in Hex. apply mbind_ok in Hex. destruct Hex as (sy & [] & Hh & Hex).
+      assert (Gy : grows sy sx).
+      { clear - Hex. revert Hex. generalize (S (List.length args)). revert sy.
+        induction xr as [|y yr IH]; intros sy n Hex; cbn [tuple_exceed] in Hex.
+        - injection Hex as <-. apply grows_refl.
+        - apply mbind_ok in Hex. destruct Hex as (sz & [] & Hh & Hex).
+          eapply grows_trans; [eapply handle_error_grows; exact Hh|eapply IH; exact Hex]. }
+      split; [eapply grows_trans; [eapply handle_error_grows; exact Hh|exact Gy]|].
+      intros Heq. exfalso. eapply grew_contra; eassumption.
+    - injection Hex as <-. split; [apply grows_refl|reflexivity]. }
+  destruct Gx as [Gx Hcond].
+  assert (Hsr : e_errors sr = []) by exact He.
+  assert (Hsx : e_errors sx = []) by (eapply grows_nil; eassumption).
+  assert (Hs1 : e_errors s1 = []) by (eapply grows_nil; eassumption).
+  destruct (Hn ltac:(congruence)) as (new & Hnew & HF & Hlen). cbn [app] in Hnew. subst new.
+  specialize (Hcond ltac:(congruence)).
+  assert (Hlr : List.length res = List.length args) by (symmetry; eapply Forall2_len; exact HF).
+  assert (Hlv : (List.length args <= List.length vals0)%nat).
+  { destruct Hlen as [Hl|Hl]; lia. }
+  set (extra := match o_addition o with Some true => skipn (List.length args) vals0 | _ => [] end) in *.
+  (* the typed hypothesis gives the per-position typing of res *)
+  assert (Hre : Forall2 (refixed o depth) args res).
+  { clear - HF Hty Hst Ho Hfix. revert Hty. generalize extra. revert Hst.
+    induction HF as [|a r args res Hp HF IH]; intros Hst ex Hty; [constructor|].
+    cbn [forallb] in Hst. apply andb_prop in Hst. destruct Hst as [Ha Hst].
+    cbn [app typed_list] in Hty. apply andb_prop in Hty. destruct Hty as [Hta Hty].
+    constructor; [apply enter_fixed; assumption|]. eapply IH; eassumption. }
+  (* second run *)
+  unfold rule_parse. unfold mbind at 1. unfold mcatch.
+  rewrite (Hprim _ _ _ _ _ _ _ (PTuple (res ++ extra)) s2 Hor eq_refl).
+  rewrite Eap. unfold mbind at 1. unfold parse_tuple_args.
+  assert (Hcond2 : ((List.length args <? List.length (res ++ extra))%nat &&
+                    ((match o_addition o with Some false => true | _ => false end) || o_no_data_loss o)) = false).
+  { destruct ((match o_addition o with Some false => true | _ => false end) || o_no_data_loss o) eqn:Efl;
+      [|apply andb_false_r].
+    rewrite andb_true_r in *. apply Nat.ltb_ge in Hcond. apply Nat.ltb_ge.
+    assert (Hex0 : extra = []).
+    { unfold extra. destruct (o_addition o) as [[|]|]; try reflexivity.
+      apply skipn_all2. lia. }
+    rewrite Hex0, app_nil_r. lia. }
+  rewrite Hcond2. unfold mbind at 1. unfold ret at 1. unfold mbind at 1.
+  pose proof (tuple_items_refixed o depth args res Hre [] extra [] s2) as Hgo.
+  cbn [app List.length] in Hgo. rewrite Hgo. unfold ret at 1.
+  assert (Hsk : match o_addition o with Some true => skipn (List.length args) (res ++ extra) | _ => [] end = extra).
+  { unfold extra. destruct (o_addition o) as [[|]|]; try reflexivity.
+    rewrite <- Hlr. rewrite skipn_app, skipn_all, Nat.sub_diag. reflexivity. }
+  rewrite Hsk. apply rule_tail_again; assumption.
+Qed.
+
+
+
 (* ---- Rule.parse ---- *)
 Lemma rule_parse_fixed o depth origin args ell vals ct mn mx v s s' w :
   throwing o -> stable (TRule origin args ell vals ct mn mx) = true ->
@@ -315,6 +537,11 @@ Proof.
   intros Ho Hst H Hty s2 Hcl. cbn [stable] in Hst.
   apply andb_prop in Hst. destruct Hst as [Hst Hshape]. apply andb_prop in Hst. destruct Hst as [Hck Hct].
   destruct ct as [c|]; [discriminate Hct|]. clear Hct.
+  cbn [typed] in Hty.
+  destruct (tuple_origin origin ell && negb (match args with [] => true | _ => false end)) eqn:Etup.
+  { apply andb_prop in Etup. destruct Etup as [Eto Ene]. destruct (tuple_origin_inv _ _ Eto) as [-> ->].
+    assert (Hne : args <> []) by (destruct args; [discriminate Ene|discriminate]).
+    exact (rule_tuple_fixed o depth args vals mn mx v s s' w Ho Hck Hne Hshape H Hty s2 Hcl). }
   unfold rule_parse in H.
   apply mbind_ok in H. destruct H as (s1 & v1 & Hor & H).
   (* peel the None shortcut of the first run *)
@@ -509,54 +736,45 @@ Proof.
    injection H as ->; eapply Htyp; eassumption).
 Qed.
 
-(* what Rule.parse did when it returned, for checking constraints and no `contains` *)
-Lemma rule_parse_inv o depth origin args ell vals mn mx v s s' w :
-  checking_vals vals = true ->
-  rule_parse re tr o depth origin args ell vals None mn mx v s = (s', Ok w) ->
-  exists s1 v1,
-    match origin with Some ot => tr o depth ot v s = (s1, Ok v1) | None => s1 = s /\ v1 = v end /\
-    ((exists ot, origin = Some ot /\ v1 = PNone /\ w = PNone) \/
-     exists sa,
-      (match args_parser_of origin args ell with
-       | APNone => ret v1
-       | APSeq => match args with
-                  | arg :: _ => do r <- parse_seq_args tr o depth arg v1;
-                                lift (rebuild_origin (match origin with Some ot => base_prim 8 ot | None => None end) r)
-                  | [] => ret v1 end
-       | APTuple => parse_tuple_args tr o depth args v1
-       | APMap => parse_map_args tr o depth args v1
-       end) s1 = (sa, Ok w) /\ e_errors sa = []).
+Lemma rule_tuple_typed o depth args vals mn mx v s s' w :
+  throwing o -> checking_vals vals = true -> args <> [] -> forallb stable args = true ->
+  rule_parse re tr o depth (Some (TPrim TTuple)) args false vals None mn mx v s = (s', Ok w) ->
+  (match w with PTuple xs => ints_list args xs | _ => true end) = true ->
+  (match w with PTuple xs => typed_list args xs | _ => false end) = true.
 Proof.
-  intros Hck H. unfold rule_parse in H.
-  apply mbind_ok in H. destruct H as (s1 & v1 & Hor & H). exists s1, v1.
-  split.
-  { destruct origin as [ot|]; [eapply origin_ok; exact Hor|]. injection Hor as <- <-. split; reflexivity. }
-  assert (Hcase : (exists ot, origin = Some ot /\ v1 = PNone /\ w = PNone) \/
-    exists sa v2,
-      (match args_parser_of origin args ell with
-       | APNone => ret v1
-       | APSeq => match args with
-                  | arg :: _ => do r <- parse_seq_args tr o depth arg v1;
-                                lift (rebuild_origin (match origin with Some ot => base_prim 8 ot | None => None end) r)
-                  | [] => ret v1 end
-       | APTuple => parse_tuple_args tr o depth args v1
-       | APMap => parse_map_args tr o depth args v1
-       end) s1 = (sa, Ok v2) /\
-      (do v3 <- (if o_ignore_constraints o then ret v2
-                 else do w0 <- run_validators re o vals v2; ret w0);
-       do _ <- raise_error; ret v3) sa = (s', Ok w)).
-  { destruct origin as [ot|]; [destruct v1|]; try (right; apply mbind_ok in H; destruct H as (sa & v2 & H1 & H2); eauto).
-    left. injection H as _ <-. eauto. }
-  destruct Hcase as [Hn|(sa & v2 & Hap & Ht)]; [left; exact Hn|right].
-  apply mbind_ok in Ht. destruct Ht as (sb & v3 & Hv & Ht).
-  apply mbind_ok in Ht. destruct Ht as (sc & [] & Hr & Ht). injection Ht as <- <-.
-  apply raise_error_ok in Hr. destruct Hr as (-> & He & _).
-  assert (Hval : v3 = v2 /\ grows sa sb).
-  { destruct (o_ignore_constraints o).
-    - injection Hv as <- <-. split; [reflexivity|apply grows_refl].
-    - apply mbind_ok in Hv. destruct Hv as (sd & w0 & Hrv & Hc). injection Hc as <- <-.
-      destruct (run_validators_checking re o vals Hck _ _ _ _ Hrv) as (-> & G1 & _). split; [reflexivity|exact G1]. }
-  destruct Hval as (-> & G1). exists sa. split; [exact Hap|]. eapply grows_nil; eassumption.
+  intros Ho Hck Hne Hst H Hi.
+  destruct (rule_parse_inv tr _ _ _ _ _ _ _ _ _ _ _ _ Hck H) as (s1 & v1 & Hor & Hcase).
+  destruct Hcase as [(ot & _ & -> & ->)|(sa & Hap & He & _)].
+  { (* tuple(...) never returns None *) exfalso.
+    destruct (Htyp _ _ _ _ _ _ _ Ho (eq_refl : stable (TPrim TTuple) = true) Hor eq_refl) as [_ [Hex _]].
+    specialize (Hex eq_refl). discriminate Hex. }
+  assert (Eap : args_parser_of (Some (TPrim TTuple)) args false = APTuple).
+  { destruct args; [contradiction|reflexivity]. }
+  rewrite Eap in Hap. unfold parse_tuple_args in Hap.
+  destruct v1 as [| | | | | | | |vals0| | | | | | |]; try discriminate Hap.
+  apply mbind_ok in Hap. destruct Hap as (sx & [] & Hex & Hap).
+  apply mbind_ok in Hap. destruct Hap as (sr & res & Hit & Hap). injection Hap as <- <-.
+  destruct (tuple_items_produced tr o depth vals0 Ho _ _ _ _ _ _ Hit) as [G1 Hn].
+  assert (Gx : grows s1 sx).
+  { destruct ((List.length args <? List.length vals0)%nat &&
+              ((match o_addition o with Some false => true | _ => false end) || o_no_data_loss o)).
+    - remember (skipn (List.length args) vals0) as exl eqn:Eexl. clear Eexl.
+      clear - Hex. revert Hex. generalize (List.length args). revert s1.
+      induction exl as [|y yr IH]; intros s1 n Hex; cbn [tuple_exceed] in Hex.
+      + injection Hex as <-. apply grows_refl.
+      + apply mbind_ok in Hex. destruct Hex as (sz & [] & Hh & Hex).
+        eapply grows_trans; [eapply handle_error_grows; exact Hh|eapply IH; exact Hex].
+    - injection Hex as <-. apply grows_refl. }
+  assert (Hsx : e_errors sx = []) by (eapply grows_nil; eassumption).
+  destruct (Hn ltac:(congruence)) as (new & Hnew & HF & _). cbn [app] in Hnew. subst new.
+  clear - HF Hi Hst Ho Htyp. revert Hi Hst.
+  generalize (match o_addition o with Some true => skipn (List.length args) vals0 | _ => [] end).
+  induction HF as [|a r args res Hp HF IH]; intros ex Hi Hst; [reflexivity|].
+  cbn [forallb] in Hst. apply andb_prop in Hst. destruct Hst as [Ha Hst].
+  cbn [app ints_list typed_list] in *. apply andb_prop in Hi. destruct Hi as [Hia Hi].
+  destruct Hp as [x Hx]. apply andb_true_intro. split.
+  - eapply enter_typed; [exact Ho|exact Ha|exact Hx|exact Hia].
+  - eapply IH; eassumption.
 Qed.
 
 Lemma rule_parse_typed o depth origin args ell vals ct mn mx v s s' w :
@@ -568,18 +786,22 @@ Proof.
   intros Ho Hst H Hi. cbn [stable] in Hst.
   apply andb_prop in Hst. destruct Hst as [Hst Hshape]. apply andb_prop in Hst. destruct Hst as [Hck Hct].
   destruct ct as [c|]; [discriminate Hct|]. clear Hct.
-  destruct (rule_parse_inv _ _ _ _ _ _ _ _ _ _ _ _ Hck H) as (s1 & v1 & Hor & Hcase).
   cbn [typed ints_exact] in *.
+  destruct (tuple_origin origin ell && negb (match args with [] => true | _ => false end)) eqn:Etup.
+  { apply andb_prop in Etup. destruct Etup as [Eto Ene]. destruct (tuple_origin_inv _ _ Eto) as [-> ->].
+    assert (Hne : args <> []) by (destruct args; [discriminate Ene|discriminate]).
+    exact (rule_tuple_typed o depth args vals mn mx v s s' w Ho Hck Hne Hshape H Hi). }
+  destruct (rule_parse_inv tr _ _ _ _ _ _ _ _ _ _ _ _ Hck H) as (s1 & v1 & Hor & Hcase).
   destruct args as [|a [|b [|]]]; try discriminate Hshape.
   - (* no args: the result is what the origin returned *)
     destruct origin as [ot|]; [|reflexivity].
     assert (Hw : w = v1).
-    { destruct Hcase as [(ot' & _ & -> & ->)|(sa & Hap & _)]; [reflexivity|].
+    { destruct Hcase as [(ot' & _ & -> & ->)|(sa & Hap & _ & _)]; [reflexivity|].
       injection Hap as _ <-. reflexivity. }
     subst v1. eapply Htyp; eassumption.
   - destruct origin as [[|p| | |]|]; try discriminate Hshape.
     apply andb_prop in Hshape. destruct Hshape as [Hsp Hsa].
-    destruct Hcase as [(ot' & _ & -> & ->)|(sa & Hap & He)].
+    destruct Hcase as [(ot' & _ & -> & ->)|(sa & Hap & He & _)].
     { (* a sequence origin never returns None *) exfalso.
       pose proof Hor as Hx.
       assert (Hst : stable (TPrim p) = true) by reflexivity.
@@ -603,7 +825,7 @@ Proof.
   - (* a mapping *)
     destruct origin as [[|p| | |]|]; try discriminate Hshape. destruct p; try discriminate Hshape.
     apply andb_prop in Hshape. destruct Hshape as [Hsk Hsv].
-    destruct Hcase as [(ot' & _ & -> & ->)|(sa & Hap & He)].
+    destruct Hcase as [(ot' & _ & -> & ->)|(sa & Hap & He & _)].
     { (* dict(...) never returns None *) exfalso.
       destruct (Htyp _ _ _ _ _ _ _ Ho (eq_refl : stable (TPrim TDict) = true) Hor eq_refl) as [_ [_ Hnn]].
       apply Hnn; reflexivity. }
